@@ -1516,17 +1516,21 @@ func (w *c03World) honest(r *vlib.Run, l *c03Local, t10 int) {
 		sv := NewSuffrageVoting(w.nodes[n].Address(), db,
 			func(util.Hash) (bool, error) { return false, nil }, nil)
 
-		// every live node signs the expel of every node of E and the signs are gossiped
+		// every live node signs the expel of every node of E. (The operation is voted once, carrying all
+		// signs: merging sign by sign fails at the third merge with the test pool, which hands back the
+		// pointer that SuffrageVoting.merge stored; unrelated to C03.)
 		for _, e := range targets {
-			for s := 0; s < n; s++ {
-				if emask&(1<<s) != 0 {
-					continue
-				}
+			var signers []int
 
-				op := w.op(c03OpCache{}, c03Expel{Target: e, Signers: []int{s}})
-				if _, err := sv.Vote(op); err != nil {
-					panic(err)
+			for s := 0; s < n; s++ {
+				if emask&(1<<s) == 0 {
+					signers = append(signers, s)
 				}
+			}
+
+			op := w.op(c03OpCache{}, c03Expel{Target: e, Signers: signers})
+			if _, err := sv.Vote(op); err != nil {
+				panic(err)
 			}
 		}
 
@@ -1650,17 +1654,22 @@ func (c c03Config) String() string {
 	return fmt.Sprintf("n=%d,t10=%d,%s,%s,cap=%d", c.n, c.t10, c.stage, m, c.tupleCap)
 }
 
+// weight = measured relative cost, used to spread the configs over the shards
 func (c c03Config) weight() int {
-	w := 1
-	for i := 0; i < c.n; i++ {
-		w *= 20
+	switch {
+	case c.n == 5 && !c.reduced:
+		return 75
+	case c.n == 7:
+		return 55
+	case c.n == 6:
+		return 17
+	case c.n == 5:
+		return 5
+	case c.n == 4:
+		return 4
+	default:
+		return 1
 	}
-
-	if c.reduced {
-		w /= 100
-	}
-
-	return w
 }
 
 func c03Configs(r *vlib.Run) []c03Config {
@@ -1679,13 +1688,11 @@ func c03Configs(r *vlib.Run) []c03Config {
 			sizes := []nr{{1, false, 4096}, {2, false, 4096}, {3, false, 4096}, {4, false, 4096}}
 
 			switch {
+			case r.Thorough() && st == base.StageINIT:
+				sizes = append(sizes, nr{5, false, 256}, nr{6, true, 0}, nr{7, true, 0})
 			case r.Thorough():
-				cap5 := 256
-				if t10 == 670 && st == base.StageINIT {
-					cap5 = 4096
-				}
-
-				sizes = append(sizes, nr{5, false, cap5}, nr{6, true, 0}, nr{7, true, 0})
+				// ACCEPT differs from INIT only in the voteproof type wrappers
+				sizes = append(sizes, nr{5, true, 0})
 			case st == base.StageINIT:
 				sizes = append(sizes, nr{5, true, 0})
 			}
@@ -1909,15 +1916,23 @@ func TestVerifC03(t *testing.T) {
 	r := vlib.Start("C03")
 	defer r.Finish()
 
-	r.Rule("per (n, t, stage): every candidate voteproof = expelled set E x signer set per expel x (absent|fact) per " +
-		"non-expelled node over the facts {A,B} x {no expel facts, expel facts of E}, with the majority an honest counter " +
-		"would claim, plus single-deviation negatives (other claimed majority/DRAW, expelled/non-member/duplicate voter, " +
-		"vote of another point, bad signature, self/non-member/duplicate expel signer, expired/duplicate/non-member expel, " +
-		"facts listing other expels); n<=5: all signer subsets; n=6,7: signer sets of sizes {th-1,th,n-1} taken " +
-		"live-first or expelled-first, identical choice for all expels plus one deviating expel, and the fact menu " +
-		"without B-without-expel-facts; each candidate is built with real signatures and validated once by " +
-		"IsValidVoteproofWithSuffrage + Voteproof.IsValid; non-trivial = distinct accepted descriptor " +
-		"(voter->fact map, majority, number of expelled nodes); all pairs of accepted descriptors are compared")
+	r.Rule("per (n, t, stage): MAIN = every candidate voteproof (expelled set E) x (signer set of each expel) x " +
+		"(absent | fact) per non-expelled node, facts {A,B} x {without expel facts, with the expel facts of E}, claiming " +
+		"the most voted fact as majority. Signer sets: all subsets of N\\{e} per expel while the tuple count " +
+		"(2^(n-1))^|E| <= cap (cap 4096 for n<=4 = everything; 256 for n=5 = |E|<=2), beyond the cap 'banded' = every " +
+		"size 0..n-1 taken live-nodes-first or expelled-nodes-first, same choice for all expels plus ONE deviating expel. " +
+		"'reduced' configs (n=6,7; n=5 in quick and for ACCEPT): sizes {th-1,th,n-1} only, deviations only from size th, " +
+		"facts {A_E,B_E}. DEVIATIONS = around bases with fully signed expels (n<=5 full configs: every assignment over " +
+		"{A_E,B_E,A}; reduced: first m nodes vote A, m in {required-1, required, all}, optionally the last votes B): " +
+		"every other claimed majority incl. DRAW / unvoted fact / fact of another point / fact listing other expels, " +
+		"extra voter (expelled node, non-member, duplicate with same or other fact), a vote of another point, a bad " +
+		"signature, expel signed additionally or only by its target / by a non-member / with a duplicated sign, " +
+		"expired expel, node expelled twice, non-member expelled, expel voteproof type without expels. Each candidate is " +
+		"built with real signatures and validated ONCE by IsValidVoteproofWithSuffrage + Voteproof.IsValid; honest " +
+		"constructions through SuffrageVoting.Find are validated too (t=67). non-trivial = distinct ACCEPTED " +
+		"descriptor (voter->facts map, majority, number of expelled nodes, class flags); all pairs of accepted " +
+		"descriptors that carry a majority are compared: different majority facts and <= f nodes having signed two " +
+		"different facts = violation")
 	r.Assume("accepted == IsValidVoteproofWithSuffrage(vp, suf)==nil && vp.IsValid(networkID)==nil, evaluated in that order (both are pure)")
 	r.Assume("both voteproofs of a pair carry the network's threshold t in their threshold field; the field itself is attacker-chosen and is compared with the local parameter elsewhere")
 	r.Assume("stuck voteproofs and suffrage-confirm facts are not enumerated: they carry no majority fact / share the INIT fact hash")
